@@ -9,6 +9,8 @@ import (
 	"encoding/json"
 	"fmt"
 	"hash/fnv"
+	"math"
+	"math/bits"
 	"os"
 	"os/exec"
 	"path/filepath"
@@ -175,6 +177,47 @@ type Part struct {
 	Bound        string           `json:"bound"`
 	Flaky        []string         `json:"flaky"`
 	Spaces       map[string]int64 `json:"spaces"` // family -> cases generated (before sharding), to show cardinalities
+	Sketch       []byte           `json:"sketch,omitempty"` // linear-counting bitmap of observation hashes (Ctx.Observe)
+	Observed     int64            `json:"observed"`         // number of Observe calls
+}
+
+// OnRun is called with the context before a check's Run function starts (used by package checks to install its
+// observation sink).
+var OnRun func(c *Ctx)
+
+const sketchBits = 1 << 23 // 1 MiB bitmap: linear counting is within ~1% up to several million distinct observations
+
+// Observe records what a case was observed to do (outputs, values, errors - whatever the check compares), so that the
+// evidence can state how many DISTINCT behaviours the explored cases exhibited (a guard against vacuous exploration:
+// many cases with one behaviour mean nothing collided). Counted with a linear-counting sketch merged across workers.
+func (c *Ctx) Observe(parts ...string) {
+	if c.P.Sketch == nil {
+		c.P.Sketch = make([]byte, sketchBits/8)
+	}
+	h := fnv.New64a()
+	for _, p := range parts {
+		h.Write([]byte(p))
+		h.Write([]byte{0})
+	}
+	x := h.Sum64()
+	x ^= x >> 29
+	b := x % sketchBits
+	c.P.Sketch[b/8] |= 1 << (b % 8)
+	c.P.Observed++
+}
+
+func sketchEstimate(sk []byte) int64 {
+	if sk == nil {
+		return 0
+	}
+	zero := 0
+	for _, b := range sk {
+		zero += 8 - bits.OnesCount8(b)
+	}
+	if zero == 0 {
+		return sketchBits
+	}
+	return int64(math.Round(-float64(sketchBits) * math.Log(float64(zero)/float64(sketchBits))))
 }
 
 // Ctx is handed to a check's Run function in a worker.
@@ -473,6 +516,15 @@ func merge(dst *Part, src *Part) {
 			dst.KnownExample[k] = src.KnownExample[k]
 		}
 	}
+	dst.Observed += src.Observed
+	if src.Sketch != nil {
+		if dst.Sketch == nil {
+			dst.Sketch = make([]byte, sketchBits/8)
+		}
+		for i, b := range src.Sketch {
+			dst.Sketch[i] |= b
+		}
+	}
 	dst.NewViols = append(dst.NewViols, src.NewViols...)
 	dst.Flaky = append(dst.Flaky, src.Flaky...)
 	if len(dst.Samples) < 60 {
@@ -562,6 +614,9 @@ func Main(args []string) int {
 		if ch.TrackDeath {
 			c.curFile, _ = os.Create(out + ".cur")
 		}
+		if OnRun != nil {
+			OnRun(c)
+		}
 		ch.Run(c)
 		b, _ := json.Marshal(&c.P)
 		if err := os.WriteFile(out, b, 0o644); err != nil {
@@ -582,6 +637,9 @@ func Main(args []string) int {
 		c.Seed = seed
 		if capDur > 0 {
 			c.Deadline = time.Now().Add(capDur)
+		}
+		if OnRun != nil {
+			OnRun(c)
 		}
 		ch.Run(c)
 		merge(total, &c.P)
@@ -757,6 +815,11 @@ func finish(ch *Check, tier string, seed int64, p *Part, wall time.Duration) int
 		"known_findings_seen": p.Known,
 		"new_violation_classes": p.NewViolCount,
 		"notes":               p.Notes,
+	}
+	if p.Observed > 0 {
+		cov["observations"] = p.Observed
+		cov["distinct_behaviours_estimate"] = sketchEstimate(p.Sketch)
+		cov["distinct_behaviours_note"] = "number of distinct observation records (what the oracle compares: outputs, values, errors, dumps) among the explored cases; linear-counting estimate over a 2^23-bit sketch merged across workers"
 	}
 	if p.States > 0 || ch.Level == "model_checking" {
 		cov["states"] = p.States
